@@ -1,5 +1,9 @@
 // C05: eventx::ThreadPool / eventx::WorkThread under the cooperative scheduler (engine S).
 // usage: harness <scenario> <min> <max> <bound> [--replay picks]
+//
+// Scenario numbers: 0..11 thread pool scripts, 50+k = pool script k ended by the DESTRUCTOR instead of an explicit cleanup(),
+// 100..105 work thread scripts, 150+k = work thread script 100+k ended by the destructor only.
+// Every odd-numbered task is submitted through the `const NonReturnFunc &` overloads (named lvalue functors), every even one through `&&`.
 #include "sched/sched.h"
 #include "sched/explore.h"
 #include "sched/fake_loop.h"
@@ -21,13 +25,31 @@ using eventx::ThreadPool; using eventx::WorkThread;
 #define VERIF_TSAN 0
 #endif
 namespace {
-const int MAXTASK = 4;
-struct Rec { bool accepted = false, has_cb = false; int prio = 0; int started = 0, finished = 0, cb = 0; int start_thr = -1, cb_thr = -1; long fin_seq = 0, cb_seq = 0, start_seq = 0; int cancel_ret = -1; cabinet::Token tok; };
+const int MAXTASK = 5;
+enum { BODY_PLAIN = 0, BODY_GATE = 1, BODY_REENTRANT = 2 };
+struct Rec { bool accepted = false, has_cb = false; int prio = 0; int started = 0, finished = 0, cb = 0; int start_thr = -1, cb_thr = -1; long fin_seq = 0, cb_seq = 0, start_seq = 0; int cancel_ret = -1; cabinet::Token tok;
+  int epoch = 0;           // life cycle (initialize..cleanup) of the pool in which the task was accepted
+  bool dropped = false;    // a cleanup() RETURNED while the body had not started: it must never start
+  int batch = 0;           // >0: queued together with the other tasks of the batch while the only worker was blocked (total pick order is known)
+  int want_loop = 0, cb_loop = -1; };   // which loop the completion callback belongs to / was run by
 Rec R[MAXTASK]; long g_seq = 0; int g_running = 0, g_max_running = 0;
-std::mutex *g_m; std::condition_variable *g_cv;
-ThreadPool *g_tp = nullptr; WorkThread *g_wt = nullptr; FakeLoop *g_loop = nullptr;
-int g_min = 0, g_max = 1;
+std::mutex *g_m; std::condition_variable *g_cv; bool g_gate_open = false;
+ThreadPool *g_tp = nullptr; WorkThread *g_wt = nullptr;
+int g_min = 0, g_max = 1, g_epoch = 0, g_cur_loop = -1;
 bool g_in_cleanup = false; cabinet::Token g_cancel_target; bool g_in_cancel = false;
+
+// FakeLoop (engine) counts a worker's post after cleanup() only in the `Func&&` overload; the pool posts its completion callbacks through
+// `const Func&` (thread_pool.cpp: runInLoop(item->main_cb, ...)), so that overload is counted here as well.
+struct Loop5 : FakeLoop {
+  int id = 0;
+  RunId runInLoop(Func &&f, const std::string &w) override { return FakeLoop::runInLoop(std::move(f), w); }
+  RunId runInLoop(const Func &f, const std::string &) override { std::lock_guard<std::mutex> g(m); if (closed_for_workers && sched_self() != 0) late_worker_posts++; q.push_back(f); return ++posted; }
+};
+Loop5 *g_loop = nullptr, *g_loopB = nullptr;
+void drain(Loop5 *l) { if (!l) return; g_cur_loop = l->id; l->drain(); g_cur_loop = -1; }
+void drain_all() { drain(g_loop); drain(g_loopB); }
+
+int clamp_level(int prio) { if (prio < THREAD_POOL_PRIO_MIN) prio = THREAD_POOL_PRIO_MIN; if (prio > THREAD_POOL_PRIO_MAX) prio = THREAD_POOL_PRIO_MAX; return prio - THREAD_POOL_PRIO_MIN; }   // 0 = picked first ("the smaller, the higher")
 
 // ---- pick-order oracle, evaluated at every scheduling point on the waiting queues themselves ----
 struct QSnap { int n[THREAD_POOL_PRIO_SIZE]; cabinet::Token t[THREAD_POOL_PRIO_SIZE][MAXTASK + 1]; bool valid = false; } g_prev;
@@ -40,6 +62,9 @@ bool in_snap(const QSnap &s, const cabinet::Token &x) { for (int i = 0; i < THRE
 uint32_t on_point() {
   if (!g_tp && !(g_wt && g_wt->d_)) return 0;
   QSnap cur; take(cur);
+  // which queue a waiting task sits in is decided by the model (its submitted priority), not by where the implementation put it
+  if (g_tp) for (int i = 0; i < THREAD_POOL_PRIO_SIZE; i++) for (int k = 0; k < cur.n[i]; k++)
+    for (int r = MAXTASK - 1; r >= 0; r--) if (R[r].accepted && R[r].tok == cur.t[i][k]) { if (clamp_level(R[r].prio) != i) sched_fail("priority-level: task %d (priority %d) waits in queue %d", r, R[r].prio, i); break; }
   if (g_prev.valid) {
     int hi = -1; for (int i = 0; i < THREAD_POOL_PRIO_SIZE; i++) if (g_prev.n[i] > 0) { hi = i; break; }
     for (int i = 0; i < THREAD_POOL_PRIO_SIZE; i++) for (int k = 0; k < g_prev.n[i]; k++) {
@@ -59,114 +84,196 @@ uint32_t on_point() {
 void dump() {
   if (g_tp) sched_note("DUMP pool: stop_flag=%d idle=%zu threads=%zu undo=%zu doing=%zu", (int)g_tp->d_->all_threads_stop_flag, g_tp->d_->idle_thread_num, g_tp->d_->threads_cabinet.size(), g_tp->d_->undo_tasks_cabinet.size(), g_tp->d_->doing_tasks_token.size());
   if (g_wt && g_wt->d_) sched_note("DUMP workthread: stop_flag=%d undo=%zu doing=%zu", (int)g_wt->d_->stop_flag, g_wt->d_->undo_tasks_token_deque.size(), g_wt->d_->doing_tasks_token.size());
-  for (int i = 0; i < MAXTASK; i++) if (R[i].accepted) sched_note("DUMP task%d started=%d finished=%d cb=%d cancel=%d", i, R[i].started, R[i].finished, R[i].cb, R[i].cancel_ret);
+  for (int i = 0; i < MAXTASK; i++) if (R[i].accepted) sched_note("DUMP task%d epoch=%d started=%d finished=%d cb=%d cancel=%d", i, R[i].epoch, R[i].started, R[i].finished, R[i].cb, R[i].cancel_ret);
 }
 
-std::function<void()> body_of(int i) {
-  return [i] {
-    { std::lock_guard<std::mutex> g(*g_m); R[i].started++; R[i].start_thr = sched_self(); R[i].start_seq = ++g_seq; g_running++; if (g_running > g_max_running) g_max_running = g_running; }
+void submit(int i, int prio, bool cb, int kind = BODY_PLAIN, Loop5 *explicit_loop = nullptr);
+void status(int i);
+
+std::function<void()> body_of(int i, int kind) {
+  return [i, kind] {
+    { std::lock_guard<std::mutex> g(*g_m); R[i].started++; R[i].start_thr = sched_self(); R[i].start_seq = ++g_seq; g_running++; if (g_running > g_max_running) g_max_running = g_running; if (kind == BODY_GATE) g_cv->notify_all(); }
+    if (kind == BODY_GATE) { std::unique_lock<std::mutex> lk(*g_m); g_cv->wait(lk, [] { return g_gate_open; }); }     // keeps its worker busy until the script opens the gate
+    if (kind == BODY_REENTRANT) { submit(i + 1, 0, true); status(i + 1); }                                           // the pool is used from inside a task body (worker thread)
     { std::lock_guard<std::mutex> g(*g_m); R[i].finished++; R[i].fin_seq = ++g_seq; g_running--; g_cv->notify_all(); }
   };
 }
-std::function<void()> cb_of(int i) { return [i] { R[i].cb++; R[i].cb_thr = sched_self(); R[i].cb_seq = ++g_seq; }; }
+std::function<void()> cb_of(int i) { return [i] { R[i].cb++; R[i].cb_thr = sched_self(); R[i].cb_seq = ++g_seq; R[i].cb_loop = g_cur_loop; }; }
 
-void submit(int i, int prio, bool cb) {
-  R[i].prio = prio; R[i].has_cb = cb;
-  if (g_tp) R[i].tok = cb ? g_tp->execute(body_of(i), cb_of(i), prio) : g_tp->execute(body_of(i), prio);
-  else R[i].tok = cb ? g_wt->execute(body_of(i), cb_of(i)) : g_wt->execute(body_of(i));
+void submit(int i, int prio, bool cb, int kind, Loop5 *explicit_loop) {
+  R[i].prio = prio; R[i].has_cb = cb; R[i].epoch = g_epoch; R[i].want_loop = explicit_loop ? explicit_loop->id : 0;
+  if (i & 1) {       // `const &` overloads
+    const std::function<void()> body = body_of(i, kind), done = cb_of(i);
+    if (g_tp) R[i].tok = cb ? g_tp->execute(body, done, prio) : g_tp->execute(body, prio);
+    else if (explicit_loop) R[i].tok = g_wt->execute(body, done, explicit_loop);
+    else R[i].tok = cb ? g_wt->execute(body, done) : g_wt->execute(body);
+  } else {           // `&&` overloads
+    if (g_tp) R[i].tok = cb ? g_tp->execute(body_of(i, kind), cb_of(i), prio) : g_tp->execute(body_of(i, kind), prio);
+    else if (explicit_loop) R[i].tok = g_wt->execute(body_of(i, kind), cb_of(i), explicit_loop);
+    else R[i].tok = cb ? g_wt->execute(body_of(i, kind), cb_of(i)) : g_wt->execute(body_of(i, kind));
+  }
   R[i].accepted = !R[i].tok.isNull();
   if (!R[i].accepted) sched_fail("execute-rejected task %d", i);
 }
 void status(int i) {
+  int started_before; { std::lock_guard<std::mutex> g(*g_m); started_before = R[i].started; }
   int st = g_tp ? (int)g_tp->getTaskStatus(R[i].tok) : (int)g_wt->getTaskStatus(R[i].tok);
   int started_now; { std::lock_guard<std::mutex> g(*g_m); started_now = R[i].started; }
   sched_note("O status%d=%d", i, st);
+  // the other direction: a task whose body had already started before the question was asked is not "waiting" any more
+  if (st == 0 && started_before > 0) sched_fail("status-waiting-but-already-started task %d", i);
+  // a task that a completed cleanup() dropped is never going to run: neither "waiting" nor "executing" agrees with that history
+  if (st != 2 && R[i].dropped) sched_fail("status-%d-for-a-task-dropped-by-cleanup task %d", st, i);
   // kNotFound can only be a correct answer for a task that has already been started (or was cancelled):
-  if (st == 2 && started_now == 0 && R[i].cancel_ret != 0) {
+  if (st == 2 && started_now == 0 && R[i].cancel_ret != 0 && !R[i].dropped) {
     // it must never start later; we wait for it below (wait_task) - remember the claim
     sched_note("claim-notfound %d", i);
     R[i].cancel_ret = -2;   // marker: answered not-found while not started
   }
 }
-void cancel(int i) {
+int cancel(int i) {
   g_cancel_target = R[i].tok; g_in_cancel = true;
   int r = g_tp ? g_tp->cancel(R[i].tok) : g_wt->cancel(R[i].tok);
   g_in_cancel = false;
   int started_now; { std::lock_guard<std::mutex> g(*g_m); started_now = R[i].started; }
   sched_note("O cancel%d=%d", i, r);
   if (r == 0) R[i].cancel_ret = 0;
-  else if (r == 1 && started_now == 0) R[i].cancel_ret = -3;   // "not found (already executed)" for a task that has not started
+  else if (r == 1 && started_now == 0 && !R[i].dropped) R[i].cancel_ret = -3;   // "not found (already executed)" for a task that has not started
   else R[i].cancel_ret = r;
+  return r;
 }
 void wait_task(int i) {     // blocks (scheduler-visible) until task i has finished; a task that never runs shows up as a deadlock
   if (R[i].cancel_ret == 0) return;
   std::unique_lock<std::mutex> lk(*g_m); g_cv->wait(lk, [i] { return R[i].finished > 0; });
 }
+void wait_started(int i) { std::unique_lock<std::mutex> lk(*g_m); g_cv->wait(lk, [i] { return R[i].started > 0; }); }
+void open_gate() { std::lock_guard<std::mutex> g(*g_m); g_gate_open = true; g_cv->notify_all(); }
 void snapshot_check() {
   if (!g_tp) return; auto s = g_tp->snapshot();
   if ((int)s.thread_num > g_max) sched_fail("snapshot: thread_num %zu exceeds max %d", s.thread_num, g_max);
 }
-void do_cleanup() { g_in_cleanup = true; if (g_tp) g_tp->cleanup(); else if (g_wt) g_wt->cleanup();
-  // "cleanup ... joins every worker": once it has returned no worker may use the pool or the loop any more. (A retiring worker that has
-  // already handed its thread object to the loop may still be returning from its thread function - DESIGN 1.7 - but it must not post again.)
-  g_loop->closed_for_workers = true; }
+// "cleanup ... joins every worker": once it has returned no worker may use the pool or the loop any more and no task body is running or will
+// start. (A retiring worker that has already handed its thread object to the loop may still be returning from its thread function - DESIGN 1.7 -
+// but it must not post again; it is joined by the closure it posted, so after draining the loop nothing but the main thread is alive.)
+void cleanup_begins() { g_in_cleanup = true; g_epoch++; }
+void cleanup_returned(const char *how) {
+  g_loop->closed_for_workers = true; if (g_loopB) g_loopB->closed_for_workers = true;
+  std::lock_guard<std::mutex> g(*g_m);
+  for (int i = 0; i < MAXTASK; i++) if (R[i].accepted) {
+    if (R[i].started > R[i].finished) sched_fail("%s returned while the body of task %d was still running", how, i);
+    if (!R[i].started) R[i].dropped = true; }
+}
+void do_cleanup() { cleanup_begins(); if (g_tp) g_tp->cleanup(); else if (g_wt) g_wt->cleanup(); cleanup_returned("cleanup()"); }
+void all_joined(const char *when) { drain_all(); int n = sched_unfinished_others(); if (n) sched_fail("%d worker thread(s) still alive %s", n, when); }
+void reopen() { g_in_cleanup = false; g_loop->closed_for_workers = false; if (g_loopB) g_loopB->closed_for_workers = false; }
 
-void final_oracle(bool waited_all) {
-  g_loop->drain();
+void final_oracle(int waited_epoch) {      // waited_epoch: the life cycle whose tasks the script waited for (-1: none)
+  all_joined("after cleanup returned and the loop was drained");
   for (int i = 0; i < MAXTASK; i++) { Rec &r = R[i]; if (!r.accepted) continue;
     if (r.started > 1 || r.finished > 1) sched_fail("task %d executed %d times", i, r.started);
     if (r.started && r.start_thr == 0) sched_fail("task %d body ran on the loop thread", i);
+    if (r.dropped && r.started) sched_fail("task %d started after cleanup had returned", i);
     if (r.cancel_ret == 0 && r.started) sched_fail("cancel-success-but-ran task %d", i);
     if (r.cancel_ret == -2 && r.started) sched_fail("status-notfound-but-ran-later task %d", i);
     if (r.cancel_ret == -3 && r.started) sched_fail("cancel-notfound-but-ran-later task %d", i);
     if (r.cancel_ret == 2 && !r.started) sched_fail("cancel-said-executing-but-never-ran task %d", i);
-    if (waited_all && r.cancel_ret != 0 && r.finished != 1) sched_fail("task %d accepted, not cancelled, cleanup not begun, but executed %d times", i, r.finished);
+    if (r.epoch == waited_epoch && r.cancel_ret != 0 && r.finished != 1) sched_fail("task %d accepted, not cancelled, cleanup not begun, but executed %d times", i, r.finished);
     if (r.cb > 1) sched_fail("completion callback of task %d ran %d times", i, r.cb);
     if (r.cb && !r.finished) sched_fail("completion callback of task %d ran although the body did not finish", i);
     if (r.cb && r.cb_thr != 0) sched_fail("completion callback of task %d ran on a worker thread", i);
     if (r.cb && r.cb_seq < r.fin_seq) sched_fail("completion callback of task %d ran before the body returned", i);
+    if (r.cb && !r.has_cb) sched_fail("task %d was submitted without a completion callback but one ran", i);
     if (r.finished && r.has_cb && r.cb != 1) sched_fail("task %d finished but its completion callback ran %d times", i, r.cb);
+    if (r.cb && r.cb_loop != r.want_loop) sched_fail("completion callback of task %d ran on loop %d, not on its own loop %d", i, r.cb_loop, r.want_loop);
     sched_note("O t%d:s%d,f%d,c%d", i, r.started, r.finished, r.cb);
   }
   // with a single worker the body start order IS the pick order: same priority => submission order (tasks are numbered in submission order)
-  if (g_max == 1) for (int i = 0; i < MAXTASK; i++) for (int j = i + 1; j < MAXTASK; j++) if (R[i].started && R[j].started && R[i].prio == R[j].prio && R[i].start_seq > R[j].start_seq) sched_fail("fifo-order: task %d (same priority, submitted earlier) started after task %d", i, j);
-  if (g_loop->late_worker_posts) sched_fail("worker-used-the-loop-after-cleanup-returned (%d posts)", g_loop->late_worker_posts);
+  if (g_max == 1) for (int i = 0; i < MAXTASK; i++) for (int j = i + 1; j < MAXTASK; j++) if (R[i].started && R[j].started && R[i].epoch == R[j].epoch && R[i].prio == R[j].prio && R[i].start_seq > R[j].start_seq) sched_fail("fifo-order: task %d (same priority, submitted earlier) started after task %d", i, j);
+  // tasks of one batch were all waiting while the only worker was busy: they start by priority (smaller first), then in submission order
+  if (g_max == 1) for (int i = 0; i < MAXTASK; i++) for (int j = 0; j < MAXTASK; j++) if (i != j && R[i].batch && R[i].batch == R[j].batch && R[i].started && R[j].started) {
+    bool i_first = clamp_level(R[i].prio) < clamp_level(R[j].prio) || (clamp_level(R[i].prio) == clamp_level(R[j].prio) && i < j);
+    if (i_first && R[i].start_seq > R[j].start_seq) sched_fail("priority-order: task %d (priority %d) started after task %d (priority %d) although both were waiting", i, R[i].prio, j, R[j].prio); }
+  int late = g_loop->late_worker_posts + (g_loopB ? g_loopB->late_worker_posts : 0);
+  if (late) sched_fail("worker-used-the-loop-after-cleanup-returned (%d posts)", late);
   if (g_max_running > g_max) sched_fail("%d task bodies ran concurrently, max is %d", g_max_running, g_max);
+}
+
+// the scripts; return the life cycle whose tasks were all waited for (-1: none)
+int pool_script(int scen, ThreadPool &tp, Loop5 &loop) {
+  int waited = -1;
+  switch (scen) {
+    case 0: submit(0, 0, true); status(0); break;                                               // submit, query, cleanup at once
+    case 1: submit(0, 0, true); submit(1, -1, false); cancel(1); status(0); wait_task(0); wait_task(1); waited = g_epoch; drain(&loop); break;
+    case 2: submit(0, 0, true); submit(1, 0, false); submit(2, -1, true); snapshot_check(); wait_task(0); wait_task(1); wait_task(2); waited = g_epoch; drain(&loop); snapshot_check(); break;
+    case 3: submit(0, 0, true); wait_task(0); drain(&loop); submit(1, 0, true);                   // worker retirement, then a new worker (task 1 re-uses the cabinet slot of task 0)
+            status(0); cancel(0);                                                                 // the stale token of the finished task: answers must not alias task 1
+            wait_task(1); waited = g_epoch;
+            if (g_max == 1) {   // single worker and task 1 has run: the worker (or its predecessor) is done with task 0, "not found" is the only answer that agrees with history
+              int st = (int)tp.getTaskStatus(R[0].tok), c = tp.cancel(R[0].tok); sched_note("O late-status0=%d late-cancel0=%d", st, c);
+              if (st != 2 || c != 1) sched_fail("finished task 0 is reported status=%d cancel=%d after a later task ran on the only worker", st, c); }
+            break;
+    case 4: submit(0, 1, false); submit(1, 0, false); status(1); cancel(0); break;                      // cancel/status racing with the pick, then cleanup
+    case 5: do_cleanup(); all_joined("after the first cleanup"); reopen(); if (!tp.initialize(g_min, g_max)) sched_fail("re-initialize failed"); submit(0, 0, true); wait_task(0); waited = g_epoch; break;   // cleanup then re-initialise
+    case 6: submit(0, 0, false); submit(1, -1, false); submit(2, 0, false); break;                // queue then cleanup: pending tasks dropped, never run twice
+    case 7: submit(0, 0, false); submit(1, 0, false); submit(2, 0, false); submit(3, 0, false); cancel(1); wait_task(0); wait_task(1); wait_task(2); wait_task(3); waited = g_epoch; break;   // three same-priority waiters, cancel in the middle
+    case 8: {   // life cycles: initialize on a ready pool, cleanup with queued/executing work, re-initialise with FEWER resident workers (the default min 0), stale tokens
+      bool again = tp.initialize(g_min, g_max); sched_note("O init-while-ready=%d", (int)again);
+      snapshot_check(); if (g_min == g_max && sched_unfinished_others() > g_max) sched_fail("%d workers alive after a second initialize(), max is %d", sched_unfinished_others(), g_max);
+      submit(0, 0, true); submit(1, -1, false);
+      do_cleanup(); all_joined("after the first cleanup"); reopen();
+      if (!tp.initialize(0, g_max)) sched_fail("re-initialize failed");
+      submit(2, 0, true); status(1); status(0); wait_task(2); waited = g_epoch; snapshot_check(); break; }
+    case 10: submit(0, 0, true, BODY_REENTRANT); wait_task(0); wait_task(1); waited = g_epoch; break;   // body 0 submits task 1 and asks for its status from the worker
+    case 11:   // gate: the only worker is held inside task 0 while four tasks with boundary / out-of-range priorities queue up; both the clamped and the raw reading give -9,-2,2,7
+      submit(0, 0, false, BODY_GATE); wait_started(0);
+      submit(1, 2, false); submit(2, 7, true); submit(3, -9, false); submit(4, -2, true); for (int i = 1; i <= 4; i++) R[i].batch = 1;
+      open_gate(); for (int i = 0; i <= 4; i++) wait_task(i); waited = g_epoch; break;
+    default: sched_fail("no such pool script %d", scen);
+  }
+  return waited;
+}
+int wt_script(int scen, Loop5 &loopB) {
+  int waited = -1;
+  switch (scen) {
+    case 100: submit(0, 0, true); status(0); break;
+    case 101: submit(0, 0, true); submit(1, 0, false); cancel(1); status(0); wait_task(0); wait_task(1); waited = g_epoch; break;
+    case 102: submit(0, 0, false); submit(1, 0, true); submit(2, 0, false); wait_task(2); wait_task(0); wait_task(1); waited = g_epoch; break;
+    case 103: submit(0, 0, true, BODY_PLAIN, &loopB); submit(1, 0, true); submit(2, 0, true, BODY_PLAIN, &loopB); submit(3, 0, true, BODY_PLAIN, &loopB); cancel(2); wait_task(0); wait_task(1); wait_task(2); wait_task(3); waited = g_epoch; break;   // explicit per-task loop next to the default loop
+    case 104: submit(0, 0, true, BODY_REENTRANT); wait_task(0); wait_task(1); waited = g_epoch; break;   // body 0 submits task 1 from the worker
+    case 105: submit(0, 0, true, BODY_PLAIN, &loopB); submit(1, 0, false); wait_task(1); waited = g_epoch; break;   // no default loop at all: the explicit loop gets the callback
+    default: sched_fail("no such work thread script %d", scen);
+  }
+  return waited;
 }
 
 void scenario(int scen) {
   std::mutex m; std::condition_variable cv; g_m = &m; g_cv = &cv;
-  FakeLoop loop; g_loop = &loop;
+  Loop5 loop, loopB; loop.id = 0; loopB.id = 1; g_loop = &loop;
   sched_on_deadlock(dump);
 #if !VERIF_TSAN
   sched_on_point(on_point);   // the hook reads pool internals from whichever thread is at the point: meaningless (and reported) under TSan
 #endif
-  bool waited = false;
+  int waited = -1;
   if (scen < 100) {
-    ThreadPool tp(&loop); g_tp = &tp;
-    if (!tp.initialize(g_min, g_max)) sched_fail("initialize failed");
-    switch (scen) {
-      case 0: submit(0, 0, true); status(0); break;                                               // submit, query, cleanup at once
-      case 1: submit(0, 0, true); submit(1, -1, false); cancel(1); status(0); wait_task(0); wait_task(1); waited = true; loop.drain(); break;
-      case 2: submit(0, 0, true); submit(1, 0, false); submit(2, -1, true); snapshot_check(); wait_task(0); wait_task(1); wait_task(2); waited = true; loop.drain(); snapshot_check(); break;
-      case 3: submit(0, 0, true); wait_task(0); loop.drain(); submit(1, 0, true); wait_task(1); waited = true; break;   // worker retirement, then a new worker
-      case 4: submit(0, 1, false); submit(1, 0, false); status(1); cancel(0); break;                      // cancel/status racing with the pick, then cleanup
-      case 5: do_cleanup(); g_in_cleanup = false; loop.closed_for_workers = false; loop.drain(); if (!tp.initialize(g_min, g_max)) sched_fail("re-initialize failed"); submit(0, 0, true); wait_task(0); waited = true; break;   // cleanup then re-initialise
-      case 6: submit(0, 0, false); submit(1, -1, false); submit(2, 0, false); break;
-      case 7: submit(0, 0, false); submit(1, 0, false); submit(2, 0, false); submit(3, 0, false); cancel(1); wait_task(0); wait_task(1); wait_task(2); wait_task(3); waited = true; break;   // three same-priority waiters, cancel in the middle                       // queue then cleanup: pending tasks dropped, never run twice
-    }
-    do_cleanup();
-    final_oracle(waited);
-    g_tp = nullptr;
+    bool dtor_only = scen >= 50; int script = dtor_only ? scen - 50 : scen;
+    ThreadPool *tp = new ThreadPool(&loop); g_tp = tp;
+    tp->d_->task_pool.keep_number_ = 0;      // de-pool: a finished/cancelled/dropped Task is really freed, so ASan sees any later use
+    if (script == 8) {   // arguments outside the documented domain must not start workers (max 0, min > max, negative)
+      bool a = tp->initialize(2, 1), b = tp->initialize(0, 0), c = tp->initialize(-1, 1); sched_note("O invalid-init=%d%d%d", (int)a, (int)b, (int)c);
+      if (sched_unfinished_others()) sched_fail("initialize() with invalid arguments started %d worker(s)", sched_unfinished_others()); }
+    if (!tp->initialize(g_min, g_max)) sched_fail("initialize failed");
+    waited = pool_script(script, *tp, loop);
+    if (dtor_only) {   // the destructor is the cleanup: it must do everything cleanup() promises
+      cleanup_begins(); sched_on_point(nullptr); delete tp; g_tp = nullptr; cleanup_returned("the destructor"); final_oracle(waited);
+    } else { do_cleanup(); final_oracle(waited); g_tp = nullptr; delete tp; }
   } else {
-    { WorkThread wt(&loop); g_wt = &wt;
-      switch (scen) {
-        case 100: submit(0, 0, true); status(0); break;
-        case 101: submit(0, 0, true); submit(1, 0, false); cancel(1); status(0); wait_task(0); wait_task(1); waited = true; break;
-        case 102: submit(0, 0, false); submit(1, 0, true); submit(2, 0, false); wait_task(2); wait_task(0); wait_task(1); waited = true; break;
-      }
-      do_cleanup();
-      g_wt = nullptr; }
+    bool dtor_only = scen >= 150; int script = dtor_only ? scen - 50 : scen;
+    if (script == 103 || script == 105) g_loopB = &loopB;
+    WorkThread *wt = new WorkThread(script == 105 ? nullptr : &loop); g_wt = wt;
+    wt->d_->task_pool.keep_number_ = 0;
+    waited = wt_script(script, loopB);
+    if (dtor_only) { cleanup_begins(); sched_on_point(nullptr); delete wt; g_wt = nullptr; cleanup_returned("the destructor"); }
+    else { do_cleanup(); g_wt = nullptr; delete wt; }
     final_oracle(waited);
   }
   sched_on_point(nullptr);
